@@ -13,6 +13,7 @@ type Tape struct {
 	replay []int
 	pos    int
 	isRep  bool
+	fair   *rand.Rand // scheduler choices past the end of a replayed tape: fixed pseudo-random (an all-zero tail would starve every actor but the first)
 }
 
 func NewTape(seed uint64) *Tape {
@@ -48,4 +49,20 @@ func (t *Tape) Draw(n int) int {
 	}
 	t.Rec = append(t.Rec, v)
 	return v
+}
+
+// DrawSched is Draw for scheduler choices: past the end of a replayed tape the
+// value comes from a fixed generator (a function of the tape length only), so
+// a shortened tape still yields a fair schedule and replays exactly.
+func (t *Tape) DrawSched(n int) int {
+	if t.isRep && t.pos >= len(t.replay) && n > 1 {
+		if t.fair == nil {
+			t.fair = rand.New(rand.NewPCG(0x5eed, uint64(len(t.replay))))
+		}
+		t.pos++
+		v := t.fair.IntN(n)
+		t.Rec = append(t.Rec, v)
+		return v
+	}
+	return t.Draw(n)
 }
